@@ -462,8 +462,9 @@ fn check_index(r: &mut Replica, u: &Universe, rng: &mut Rng) -> Result<(), Fail>
 fn run_ladder(case: &Value, args: &Args, rng: &mut Rng) -> Result<(Value, u64), Fail> {
     let merge_tag = args.opt_u64("merge_tag", 2) as u8;
     audit::set_merge_tag(merge_tag);
-    let rungs = case.u("rungs");
-    let side = case.u("side");
+    let fan = case.get("fan").and_then(Value::as_u64).unwrap_or(0);
+    let rungs = if fan > 0 { 0 } else { case.u("rungs") };
+    let side = if fan > 0 { 0 } else { case.u("side") };
     // abstract cmds: 1 init; per rung i: a=2+3i, b=3+3i, m=4+3i ; then side chain
     let mut cmds: Vec<Value> = vec![json!({"n":1,"par":[],"kind":"init","prio":0,"id":[3],"op":"n","mc":0})];
     let mut top = 1u64;
@@ -491,6 +492,19 @@ fn run_ladder(case: &Value, args: &Args, rng: &mut Rng) -> Result<(Value, u64), 
         add(&mut uni, n + 1, "b", vec![top], b);
         add(&mut uni, n + 2, "merge", vec![n, n + 1], m);
         top = n + 2;
+        n += 3;
+    }
+    // fan family: `fan` forks f_i under init, each with two children: 2*fan heads and `fan`
+    // convergence points at ONE max cut (spilled convergence blocks with overlapping ranges)
+    for i in 0..fan {
+        let p = uni.tip(1).address();
+        let f = ACmd::new(ids::basic_id(1, i as u16), Priority::Basic((i % 2) as u32), Prior::Single(p), b'n', &format!("f{i}"));
+        let fa = f.address();
+        let a = ACmd::new(ids::basic_id(2, i as u16), Priority::Basic(((i / 2) % 2) as u32), Prior::Single(fa), b'n', &format!("a{i}"));
+        let b = ACmd::new(ids::basic_id(3, i as u16), Priority::Basic(((i / 3) % 2) as u32), Prior::Single(fa), b'n', &format!("b{i}"));
+        add(&mut uni, n, "b", vec![1], f);
+        add(&mut uni, n + 1, "b", vec![n], a);
+        add(&mut uni, n + 2, "b", vec![n], b);
         n += 3;
     }
     let mut prev = 1u64;
@@ -547,7 +561,7 @@ pub fn run(args: &Args) {
     let mut out = args.out();
     for (i, case) in args.read_input().iter().enumerate() {
         let mut rng = Rng::new(args.seed ^ (i as u64).wrapping_mul(0x9E37_79B9));
-        let is_ladder = case.get("rungs").is_some();
+        let is_ladder = case.get("rungs").is_some() || case.get("fan").is_some();
         match vrt::catch_any(|| if is_ladder { run_ladder(case, args, &mut rng) } else { run_case(case, args, &mut rng) }) {
             Ok(Ok((obs, drift))) => out.emit(json!({"i": i, "ok": true, "step": -1, "obs": obs, "drift": drift})),
             Ok(Err(f)) => {
